@@ -993,6 +993,11 @@ def n_ast_walk(eng, args, kwargs, st):
     return ok(st.alloc(HList(out)), st)
 
 
+def n_fix_missing_locations(eng, args, kwargs, st):
+    eng.assumed.add("ast.fix_missing_locations: sets position attributes only and returns its argument")
+    return ok(args[0], st)
+
+
 def n_deepcopy(eng, args, kwargs, st):
     return ok(_deep_clone(args[0], st, {}), st)
 
@@ -1002,7 +1007,7 @@ def n_identity(eng, args, kwargs, st):
 
 
 NATIVE = {
-    itertools.filterfalse: n_filterfalse, copy.deepcopy: n_deepcopy, ast.walk: n_ast_walk, ast.iter_child_nodes: n_iter_child_nodes,
+    ast.fix_missing_locations: n_fix_missing_locations, itertools.filterfalse: n_filterfalse, copy.deepcopy: n_deepcopy, ast.walk: n_ast_walk, ast.iter_child_nodes: n_iter_child_nodes,
     len: n_len, isinstance: n_isinstance, type: n_type, int: n_int, float: n_float, bool: n_bool, str: n_str,
     complex: n_complex, sum: n_sum, any: n_any, all: n_all, map: n_map, filter: n_filter,
     enumerate: n_enumerate, range: n_range, next: n_next, iter: n_iter, tuple: n_tuple, list: n_list,
@@ -1204,6 +1209,8 @@ def str_method(eng, recv, name, args, kwargs, st):
             return ok(Sym(r, "str"), st)
         raise Unsupported("replace-all on a symbolic string")
     if name == "join":
+        if isinstance(args[0], Sym) and args[0].ty == "str" and recv == "":
+            return ok(args[0], st)  # "".join(s) re-assembles the characters of s
         items = eng.iter_concrete(args[0], st)
         parts = []
         for i, it in enumerate(items):
